@@ -12,14 +12,14 @@ git apply _mutation/patch.diff || { echo "patch does not apply" > "$OUT/confirm.
 cp _mutation/mutation_demo.rs tests/mutation_demo.rs
 {
 echo "== demo WITH change (expected: fails)"
-cargo test --offline --test mutation_demo 2>&1 | grep -E "^test |test result" ; 
+cargo test --offline --test mutation_demo -- --test-threads=1 2>&1 | grep -E "^test |test result" ; 
 rm -f tests/mutation_demo.rs
 echo "== existing suite WITH change (expected: passes)"
 cargo test --workspace --no-fail-fast --offline 2>&1 | grep -E "^test result|FAILED|failed" 
 git apply -R _mutation/patch.diff
 cp _mutation/mutation_demo.rs tests/mutation_demo.rs
 echo "== demo WITHOUT change (expected: passes)"
-cargo test --offline --test mutation_demo 2>&1 | grep -E "^test |test result"
+cargo test --offline --test mutation_demo -- --test-threads=1 2>&1 | grep -E "^test |test result"
 rm -f tests/mutation_demo.rs
 } > "$OUT/confirm.log" 2>&1
 echo "confirmed $ID"; tail -3 "$OUT/confirm.log"
